@@ -158,6 +158,13 @@ impl Prop for C10T {
             Some(Some(Ok(()))) => return v("returned-ok", format!("process returned Ok(())\n    {}", brief(&t))),
             other => return v("ended-without-transport-error", format!("{other:?}\n    {}", brief(&t))),
         }
+        // C10 is about *when and what* process writes for what it executes.  If it does not
+        // execute the same handlers with the same arguments and errors as run does for the
+        // same messages, that difference is C07/C08's subject and the expected answers are
+        // not known: the scenario is skipped.
+        if t.handlers() != r.handlers() || t.errors() != r.errors() {
+            return Verdict::Skip("skip:process-executes-differently-from-run(C07/C08)");
+        }
         // ordering and content on T
         {
             let mut delivered = 0usize;
